@@ -200,7 +200,11 @@ func C18(run *Run) {
 	oversize := 0
 	for c := 0; c < nCases; c++ {
 		cs, _ := GenCase(r, c, GenOpts{NoInvalid: true, MaxTuples: 6})
-		if err := env.Setup(ctx, cs.Model, cs.Tuples); err != nil {
+		// every other case is written as a schema 1.2 model: what a tuple may be does not depend on it
+		ModelSchemaVersion = []string{"1.1", "1.2"}[c%2]
+		err := env.Setup(ctx, cs.Model, cs.Tuples)
+		ModelSchemaVersion = "1.1"
+		if err != nil {
 			run.Inconclusive("setup failed: %v", err)
 		}
 		ts, mg, err := env.Typesystem(ctx, cs.Model)
